@@ -87,8 +87,11 @@ Definition hash_entry_form (kv : obj * obj) : list obj :=
   | _ => []
   end.
 
-(* The element switch of List.LoadForm: nil stays nil, a LoadFormer is asked, anything else panics
-   print-not-readable. *)
+Definition is_keyword (s : string) : bool := match s with String ":"%char _ => true | _ => false end.
+
+(* loadformer.go LoadFormOf, what stands for an ELEMENT of a list (repo_fixes/C19-2): nil stays nil, a keyword stands for
+   itself, any other symbol is quoted, a LoadFormer is asked, anything else panics print-not-readable.  Inside
+   load_form the switch is written out (elem_form below is the same function, named). *)
 Fixpoint load_form (v : obj) : res obj :=
   match v with
   | Nil => Ok Nil
@@ -98,7 +101,10 @@ Fixpoint load_form (v : obj) : res obj :=
       bind ((fix go (l : list obj) : res (list obj) :=
                match l with
                | [] => Ok []
-               | a :: r => bind (load_form a) (fun b => bind (go r) (fun bs => Ok (b :: bs)))
+               | a :: r => bind (match a with
+                                 | Sym s => if is_keyword s then Ok a else Ok (quote a)
+                                 | _ => load_form a
+                                 end) (fun b => bind (go r) (fun bs => Ok (b :: bs)))
                end) xs)
            (fun fs => Ok (L (Sym "list" :: fs)))
   | Dot xs tl =>
@@ -107,9 +113,15 @@ Fixpoint load_form (v : obj) : res obj :=
       bind ((fix go (l : list obj) : res (list obj) :=
                match l with
                | [] => Ok []
-               | a :: r => bind (load_form a) (fun b => bind (go r) (fun bs => Ok (b :: bs)))
+               | a :: r => bind (match a with
+                                 | Sym s => if is_keyword s then Ok a else Ok (quote a)
+                                 | _ => load_form a
+                                 end) (fun b => bind (go r) (fun bs => Ok (b :: bs)))
                end) xs)
-           (fun fs => bind (load_form tl) (fun ft =>
+           (fun fs => bind (match tl with
+                                 | Sym s => if is_keyword s then Ok tl else Ok (quote tl)
+                                 | _ => load_form tl
+                                 end) (fun ft =>
               match rev fs with
               | [] => Err EBadForm
               | lastf :: revhead =>
@@ -133,12 +145,17 @@ Fixpoint load_form (v : obj) : res obj :=
   | Opaque _ => Err ENotReadable
   end.
 
+Definition elem_form (v : obj) : res obj :=
+  match v with
+  | Sym s => if is_keyword s then Ok v else Ok (quote v)
+  | _ => load_form v
+  end.
+
 (* ---- the evaluator fragment ------------------------------------------------------------------- *)
 
 Definition env := list (string * obj).
 Fixpoint lookup (e : env) (s : string) : option obj :=
   match e with [] => None | (k, v) :: r => if (k =? s)%string then Some v else lookup r s end.
-Definition is_keyword (s : string) : bool := match s with String ":"%char _ => true | _ => false end.
 
 (* cons / append on the slice representation of lists *)
 Definition cons_val (a b : obj) : obj :=
